@@ -470,3 +470,10 @@ Proof.
   - intros c. apply (get_open_tag_text_sound _ d Hd). reflexivity.
   - intros t. apply (tag_tokens_slice _ d Hd).
 Qed.
+
+(* the written ranges are the ranges of the attribute items, squashed (by definition) *)
+Lemma written_ranges_items t :
+  written_ranges t =
+  name_range (tr_start t) (tr_name t) ::
+  squash (Some (name_range (tr_start t) (tr_name t))) (map fst (tl (tag_items t))).
+Proof. reflexivity. Qed.
